@@ -449,7 +449,7 @@ def fold(res, parts):
 def c02(tier):
     build("cli", "vh")
     r = Result("C02", "exploration", "one evaluation = one seeded history over {write, delete, edit-conflict-copy, bisync} on two real directories (scripted shapes from the quantifier first, then random); before/after every run both trees are snapshotted and the loss monitor checks every (side, path, content) version present at run start: unless it is the last common version and the other side changed/deleted the path, its content must be on BOTH sides after a completed run (on at least one after an aborted run); distinct non-trivial = distinct op-kind shapes with >= 1 completed run that applied >= 1 action while a non-exempt version existed")
-    n = 5000 if tier == "thorough" else 1500
+    n = 20000 if tier == "thorough" else 1500
     fold(r, run_pool(_c02_worker, seed(), n, "c02"))
     r.assumptions = ["contents are located by hash anywhere in the tree (the statement does not pin the path)", "the archive file is never consulted by this oracle; last_common is derived from the driver's own snapshots", "names ending in .copia-tmp are outside the domain"]
     if tier == "thorough":
@@ -686,7 +686,7 @@ def same_content(pre, post):
 def c06(tier):
     build("cli", "vh")
     r = Result("C06", "exploration", "one evaluation = one history executed three times in fresh sandboxes (as generated; every mtime re-drawn; directories swapped consistently), with an immediate second run after every run; on every completed run: A == B as path->bytes, archive entries == {path -> BLAKE3(bytes), File} of the tree (BLAKE3 computed by the harness), second run prints `0 action(s)` and changes no (bytes, mtime_ns, inode), divergent edits resolve to greater-BLAKE3 at path and the other at path.conflict-vh-<12 hex>; final trees of the three replays coincide; distinct non-trivial = op-kind shapes with >= 1 conflict or >= 1 path deleted on both sides")
-    n = 2500 if tier == "thorough" else 450
+    n = 6000 if tier == "thorough" else 450
     fold(r, run_pool(_c06_worker, seed(), n, "c06"))
     r.assumptions = ["comparison is modulo reserved staging names", "metamorphic comparison is skipped for histories in which a run aborted (file/directory clashes)", "winner-rule check of the conflict-copy NAME is skipped when that name already existed before the run (collision, see known finding under C02)"]
     if tier == "thorough":
@@ -1125,7 +1125,7 @@ def c08(tier):
     th = tier == "thorough"
     names = list(c08_scenarios())
     if th:
-        names += ["gen%d" % i for i in range(40)]
+        names += ["gen%d" % i for i in range(240)]
     else:
         names += ["gen%d" % (seed() * 7 + i) for i in range(12)]
     wroot = workdir("c08")
